@@ -38,6 +38,8 @@ func VC13TestingWriter() {
 		w = w.WithMarkFailed(true)
 	}
 	k, err := w.Write(p)
+	vrt.Observe("n", k)
+	vrt.Observe("logs", len(ft.logs))
 	vrt.Assert("reports-len-p-and-nil", k == n && err == nil)
 	vrt.Assert("caller-buffer-untouched", string(p) == orig)
 	vrt.Assert("logged-once", len(ft.logs) == 1)
